@@ -8,6 +8,8 @@ import (
 	"sort"
 	"strings"
 
+	"golang.org/x/tools/go/ssa"
+
 	"gsx/smt"
 )
 
@@ -118,6 +120,7 @@ type run struct {
 	maxInstr        int64
 	unwind          int
 	pcFeasibleKnown bool
+	lastInstr       ssa.Instruction
 }
 
 type knownClass struct {
